@@ -26,6 +26,10 @@ def pcInv (s : St) : Pc → Prop
       (h :: (wr ++ todo)).Nodup ∧ h ∈ s.pub ∧ (∀ k ∈ todo, k ∈ s.pub) ∧ b = (s.hs h).stopped
   | .e3 _ h todo wr =>
       (h :: (wr ++ todo)).Nodup ∧ h ∈ s.pub ∧ (∀ k ∈ todo, k ∈ s.pub) ∧ (s.hs h).stopped = false
+  | .k1 todo got => (∀ h ∈ todo, h ∈ s.pub) ∧ (∀ h ∈ s.pub, h ∈ todo ∨ h ∈ got) ∧ (∀ h ∈ got, h ∈ s.pub) ∧
+      todo.Nodup ∧ (∀ h ∈ todo, h ∉ got)
+  | .k2 got => (∀ h ∈ s.pub, h ∈ got) ∧ (∀ h ∈ got, h ∈ s.pub)
+  | .k3 got => ∀ h ∈ got, h ∈ s.pub
   | _ => True
 
 /-- the id a thread has allocated but not yet published -/
@@ -44,6 +48,8 @@ structure DataInv (s : St) : Prop where
   g8 : ∀ h, (s.hs h).stops ≤ 1 ∧ ((s.hs h).stops = 1 → (s.hs h).stopped = true)
   g9 : ∀ h ∈ s.stopDone, h ∉ s.reg ∧ h ∈ s.pub ∧ (s.hs h).stopped = true ∧ (s.hs h).stops = 1
   g10 : ∀ t u n, t ≠ u → pendingId (s.pc t) = some n → pendingId (s.pc u) = some n → False
+  g11 : ∀ h, h ∉ s.pub → (s.hs h).lock = none
+  pubnd : s.pub.Nodup
   pcs : ∀ t, pcInv s (s.pc t)
 
 theorem dataInv_init : DataInv ({} : St) := by
@@ -61,10 +67,11 @@ theorem dataInv_of_move {s s' : St} {t : Tid} {p' : Pc} (h : DataInv s)
     (hpc : s'.pc = upd s.pc t p') (h1 : s'.count = s.count) (h2 : s'.allocated = s.allocated)
     (h3 : s'.pub = s.pub) (h4 : s'.reg = s.reg) (h6 : s'.stopDone = s.stopDone)
     (h5 : ∀ k, (s'.hs k).stopped = (s.hs k).stopped ∧ (s'.hs k).stops = (s.hs k).stops)
+    (hlk : ∀ k, (s'.hs k).lock = (s.hs k).lock ∨ k ∈ s.pub)
     (hnew : pcInv s p') (hp : pendingId p' = none ∨ pendingId p' = pendingId (s.pc t)) : DataInv s' := by
   have stp : ∀ k, (s'.hs k).stopped = (s.hs k).stopped := fun k => (h5 k).1
   have sts : ∀ k, (s'.hs k).stops = (s.hs k).stops := fun k => (h5 k).2
-  refine ⟨?_, ?_, ?_, ?_, ?_, ?_, ?_, ?_, ?_, ?_, ?_⟩
+  refine ⟨?_, ?_, ?_, ?_, ?_, ?_, ?_, ?_, ?_, ?_, ?_, ?_, ?_⟩
   · rw [h2]; exact h.g1
   · rw [h2, h1]; exact h.g2
   · rw [h3, h2]; exact h.g3
@@ -90,6 +97,11 @@ theorem dataInv_of_move {s s' : St} {t : Tid} {p' : Pc} (h : DataInv s)
         · rw [hp] at hb; cases hb
         · rw [hp] at hb; exact h.g10 a b n hab ha hb
       · simp [ea, eb] at ha hb; exact h.g10 a b n hab ha hb
+  · intro k hk; rw [h3] at hk
+    rcases hlk k with e | e
+    · rw [e]; exact h.g11 k hk
+    · exact absurd e hk
+  · rw [h3]; exact h.pubnd
   · intro u
     rw [hpc]
     by_cases e : u = t
@@ -106,8 +118,8 @@ theorem core_excl {s : St} (hl : LockInv s) {t u : Tid} (ht : holdsCore (s.pc t)
   have a := hl.c1 t ht; have b := hl.c1 u hu
   rw [a] at b; exact (Option.some.inj b).symm
 
-theorem h_excl {s : St} (hl : LockInv s) {t u : Tid} {x : Hid} (ht : holdsH (s.pc t) = some x)
-    (hu : holdsH (s.pc u) = some x) : u = t := by
+theorem h_excl {s : St} (hl : LockInv s) {t u : Tid} {x : Hid} (ht : x ∈ heldH (s.pc t))
+    (hu : x ∈ heldH (s.pc u)) : u = t := by
   have a := hl.h1 t x ht; have b := hl.h1 u x hu
   rw [a] at b; exact (Option.some.inj b).symm
 
@@ -119,7 +131,7 @@ theorem dataInv_wCount {s s' : St} {t : Tid} {n : Hid} (hl : LockInv s) (h : Dat
   have hn : n = s.count := by have := h.pcs t; rw [hold] at this; simpa [pcInv] using this
   have fresh : n ∉ s.allocated := fun hm => by have := h.g2 n hm; rw [hn] at this; exact Nat.lt_irrefl _ this
   have tcore : holdsCore (s.pc t) = true := by rw [hold]; rfl
-  refine ⟨?_, ?_, ?_, ?_, ?_, ?_, ?_, ?_, ?_, ?_, ?_⟩
+  refine ⟨?_, ?_, ?_, ?_, ?_, ?_, ?_, ?_, ?_, ?_, ?_, ?_, ?_⟩
   · rw [h2]; exact List.nodup_cons.mpr ⟨fresh, h.g1⟩
   · intro a ha; rw [h2] at ha; rw [h1]
     rcases List.mem_cons.mp ha with e | e
@@ -146,6 +158,8 @@ theorem dataInv_wCount {s s' : St} {t : Tid} {n : Hid} (hl : LockInv s) (h : Dat
         subst hb
         exact fresh (pend_alloc (h.pcs a) ha).1
       · simp [ea, eb] at ha hb; exact h.g10 a b m hab ha hb
+  · intro k hk; rw [h3] at hk; rw [h5]; exact h.g11 k hk
+  · rw [h3]; exact h.pubnd
   · intro u
     rw [hpc]
     by_cases e : u = t
@@ -177,7 +191,7 @@ theorem dataInv_addPublish {s s' : St} {t : Tid} {n : Hid} {ids : List Hid} (hl 
   subst hids
   have nreg : n ∉ s.reg := fun hm => npub (h.g4 n hm)
   have tcore : holdsCore (s.pc t) = true := by rw [hold]; rfl
-  refine ⟨?_, ?_, ?_, ?_, ?_, ?_, ?_, ?_, ?_, ?_, ?_⟩
+  refine ⟨?_, ?_, ?_, ?_, ?_, ?_, ?_, ?_, ?_, ?_, ?_, ?_, ?_⟩
   · rw [h2]; exact h.g1
   · rw [h2, h1]; exact h.g2
   · intro k hk; rw [h3] at hk; rw [h2]
@@ -211,6 +225,9 @@ theorem dataInv_addPublish {s s' : St} {t : Tid} {n : Hid} {ids : List Hid} (hl 
     · by_cases eb : b = t
       · subst eb; simp [pendingId] at hb
       · simp [ea, eb] at ha hb; exact h.g10 a b m hab ha hb
+  · intro k hk; rw [h3] at hk; rw [h5]
+    exact h.g11 k (fun hm => hk (List.mem_cons_of_mem _ hm))
+  · rw [h3]; exact List.nodup_cons.mpr ⟨npub, h.pubnd⟩
   · intro u
     rw [hpc]
     by_cases e : u = t
@@ -238,7 +255,7 @@ theorem dataInv_removePublish {s s' : St} {t : Tid} {x : Hid} {todo snap : List 
   have sub : ∀ k, k ∈ s.reg.erase x → k ∈ s.reg := fun k hk => List.mem_of_mem_erase hk
   have xout : x ∉ s.reg.erase x := fun hm => by
     have := (List.Nodup.mem_erase_iff h.g5).mp hm; exact this.1 rfl
-  refine ⟨?_, ?_, ?_, ?_, ?_, ?_, ?_, ?_, ?_, ?_, ?_⟩
+  refine ⟨?_, ?_, ?_, ?_, ?_, ?_, ?_, ?_, ?_, ?_, ?_, ?_, ?_⟩
   · rw [h2]; exact h.g1
   · rw [h2, h1]; exact h.g2
   · rw [h3, h2]; exact h.g3
@@ -257,6 +274,8 @@ theorem dataInv_removePublish {s s' : St} {t : Tid} {x : Hid} {todo snap : List 
     · by_cases eb : b = t
       · subst eb; simp [pendingId] at hb
       · simp [ea, eb] at ha hb; exact h.g10 a b m hab ha hb
+  · intro k hk; rw [h3] at hk; rw [h5]; exact h.g11 k hk
+  · rw [h3]; exact h.pubnd
   · intro u
     rw [hpc]
     by_cases e : u = t
@@ -275,14 +294,14 @@ theorem dataInv_removePublish {s s' : St} {t : Tid} {x : Hid} {todo snap : List 
 /-- frame for steps that change `stopped`/`stops` of ONE handler `x` under the core lock and `x`'s lock -/
 theorem pcInv_other_handler {s s' : St} {x : Hid} (q : Pc) (h1 : s'.count = s.count)
     (h2 : s'.allocated = s.allocated) (h3 : s'.pub = s.pub) (h4 : s'.reg = s.reg)
-    (h5 : ∀ k, k ≠ x → s'.hs k = s.hs k) (nc : holdsCore q = false) (nh : holdsH q ≠ some x)
+    (h5 : ∀ k, k ≠ x → s'.hs k = s.hs k) (nc : holdsCore q = false) (nh : x ∉ heldH q)
     (hq : pcInv s q) : pcInv s' q := by
-  cases q <;> simp [pcInv, holdsCore, holdsH, h1, h2, h3, h4] at hq nc nh ⊢ <;>
+  cases q <;> simp [pcInv, holdsCore, heldH, h1, h2, h3, h4] at hq nc nh ⊢ <;>
     (try exact hq) <;> (try (rw [h5 _ nh]; exact hq)) <;> (try (rw [h5 _ (Ne.symm nh)]; exact hq))
 
 /-- (d)(e) `_stopped = True` and `sink.stop()` in Handler.stop, and (f) its return -/
 theorem dataInv_stopStep {s s' : St} {t : Tid} {x : Hid} {p' : Pc}
-    (hl : LockInv s) (h : DataInv s) (tcore : holdsCore (s.pc t) = true) (th : holdsH (s.pc t) = some x)
+    (hl : LockInv s) (h : DataInv s) (tcore : holdsCore (s.pc t) = true) (th : x ∈ heldH (s.pc t))
     (hpc : s'.pc = upd s.pc t p') (h1 : s'.count = s.count)
     (h2 : s'.allocated = s.allocated) (h3 : s'.pub = s.pub) (h4 : s'.reg = s.reg)
     (h5 : ∀ k, k ≠ x → s'.hs k = s.hs k)
@@ -292,7 +311,7 @@ theorem dataInv_stopStep {s s' : St} {t : Tid} {x : Hid} {p' : Pc}
       (k = x ∧ (s'.hs x).stopped = true ∧ (s'.hs x).stops = 1))
     (hx9 : x ∈ s.stopDone → (s'.hs x).stopped = true ∧ (s'.hs x).stops = 1)
     (hnew : pcInv s' p') (hp : pendingId p' = none) : DataInv s' := by
-  refine ⟨?_, ?_, ?_, ?_, ?_, ?_, ?_, ?_, ?_, ?_, ?_⟩
+  refine ⟨?_, ?_, ?_, ?_, ?_, ?_, ?_, ?_, ?_, ?_, ?_, ?_, ?_⟩
   · rw [h2]; exact h.g1
   · rw [h2, h1]; exact h.g2
   · rw [h3, h2]; exact h.g3
@@ -321,13 +340,17 @@ theorem dataInv_stopStep {s s' : St} {t : Tid} {x : Hid} {p' : Pc}
     · by_cases eb : b = t
       · subst eb; simp [hp] at hb
       · simp [ea, eb] at ha hb; exact h.g10 a b m hab ha hb
+  · intro k hk; rw [h3] at hk
+    have : k ≠ x := fun e => hk (e ▸ xpub)
+    rw [h5 k this]; exact h.g11 k hk
+  · rw [h3]; exact h.pubnd
   · intro u
     rw [hpc]
     by_cases e : u = t
     · subst e; simpa using hnew
     · simp [e]
       have nc := not_holdsCore_of_ne hl tcore e
-      have nh : holdsH (s.pc u) ≠ some x := fun hu => e (h_excl hl th hu)
+      have nh : x ∉ heldH (s.pc u) := fun hu => e (h_excl hl th hu)
       exact pcInv_other_handler _ h1 h2 h3 h4 h5 nc nh (h.pcs u)
 
 macro "dt_close" h:ident t:ident : tactic => `(tactic| first
@@ -337,12 +360,16 @@ macro "dt_close" h:ident t:ident : tactic => `(tactic| first
   | (apply Or.inr; simp only [*]; rfl)
   | (intro k; first | exact ⟨rfl, rfl⟩ | (simp only [upd]; split <;> simp_all; done))
   | (intro k hk; simp [upd, hk]; done)
+  | (intro k; exact Or.inl rfl)
+  | (intro k; have ht := ($h).pcs $t; simp only [upd]; split <;> simp_all [pcInv]; done)
   | (have ht := ($h).pcs $t; have g4 := ($h).g4; have g5 := ($h).g5; have g7 := ($h).g7
      have g9 := ($h).g9; have g8 := ($h).g8
-     simp_all [pcInv, holdsCore, holdsH, upd, pendingId, setPc]; done)
+     simp_all [pcInv, holdsCore, heldH, upd, pendingId, setPc]; done)
   | (have ht := ($h).pcs $t; have g4 := ($h).g4; have g5 := ($h).g5; have g7 := ($h).g7
      have g9 := ($h).g9; have g8 := ($h).g8
-     simp_all [pcInv, holdsCore, holdsH, upd, pendingId, setPc]; grind))
+     simp_all [pcInv, holdsCore, heldH, upd, pendingId, setPc]; grind)
+  | (have ht := ($h).pcs $t
+     simp_all [pcInv, List.all_eq_true, setPc]; grind))
 
 theorem dataInv_step {s s' : St} {t : Tid} {lab : Lab} (hl : LockInv s) (h : DataInv s)
     (hs : step s t lab = some s') : DataInv s' := by
@@ -354,8 +381,8 @@ theorem dataInv_step {s s' : St} {t : Tid} {lab : Lab} (hl : LockInv s) (h : Dat
      | (refine dataInv_wCount hl h (by assumption) rfl rfl rfl rfl rfl rfl rfl; done)
      | (refine dataInv_addPublish hl h (by assumption) rfl rfl rfl rfl rfl rfl rfl; done)
      | (refine dataInv_removePublish hl h (by assumption) rfl rfl rfl rfl rfl rfl rfl; done)
-     | (refine dataInv_of_move h rfl rfl rfl rfl rfl rfl ?_ ?_ ?_ <;> dt_close h t)
-     | (refine dataInv_stopStep (x := (holdsH (s.pc t)).getD 0) hl h ?_ ?_ rfl rfl rfl rfl rfl
+     | (refine dataInv_of_move h rfl rfl rfl rfl rfl rfl ?_ ?_ ?_ ?_ <;> dt_close h t)
+     | (refine dataInv_stopStep (x := (heldH (s.pc t)).headD 0) hl h ?_ ?_ rfl rfl rfl rfl rfl
           ?_ ?_ ?_ ?_ ?_ ?_ ?_ ?_ <;> dt_close h t))
 
 end Conc
